@@ -114,9 +114,10 @@ CLAIMS = {
         "derivative_exact_on_polynomials_complex proves the same for method='complex' over the reals: the five complex-step quotients "
         "(model generic in the complex carrier: C with _SQRT_J any square root of I in the theorem, Q(zeta_8) in the exact correspondence) "
         "are expanded on real polynomials, and the generated name logic, parity rows 1/3/4/5/6, constants c_0 and the sign flip "
-        "n%8 in {3,4,5,6} are shown to fit them for every n and order. Partial: rounding, truncation error of non-polynomial f and the "
-        "multicomplex pipeline are explored by the search (random expression programs vs a Taylor-series oracle, per-(method,n) "
-        "envelope), not proved.",
+        "n%8 in {3,4,5,6} are shown to fit them for every n and order. derivative_exact_on_polynomials_multicomplex: for n = 1, 2 the "
+        "quotient formed with the generated Bicomplex + and * is h^n p^(n)(x) exactly for polynomials of degree <= n + 1, and the "
+        "pipeline returns p^(n)(x). Partial: rounding and the truncation error of non-polynomial f are explored by the search "
+        "(random expression programs vs a Taylor-series oracle, per-(method,n) envelope), not proved.",
    technique="Lean 4 proof of polynomial exactness of the whole pipeline + exact/bit-exact correspondence + oracle search"),
  'C02': dict(
    text="Lean 4 theorems: every reported error estimate is >= 0 on both paths of _extrapolate (tailStage_err_nonneg, from C07/C13 and the "
